@@ -106,7 +106,7 @@ func resolveUDP(p *Prog) *udpRoles {
 		return r
 	}
 	// accepting: atomic.Value on which Close stores; doneCh: chan struct{} closed by listener Close
-	instrsOf(r.LCloseFn, func(in ssa.Instruction) {
+	instrsOfU(r.LCloseFn, func(in ssa.Instruction) {
 		if isCall(in, "(*sync/atomic.Value).Store") {
 			if fr, ok := asFieldAddr(in.(ssa.CallInstruction).Common().Args[0]); ok && fr.SName == r.LT {
 				r.accepting = fr.Field
@@ -462,7 +462,7 @@ func runC12(c *Ctx) {
 		hasDel, hasDone := false, false
 		var drained ssa.Value
 		for _, in := range drainBlk.Instrs {
-			if ex, ok := in.(*ssa.Extract); ok && ex.Tuple == ssa.Value(drainRecv) && ex.Index >= 2 {
+			if ex, ok := in.(*ssa.Extract); ok && sameOrigin(ex.Tuple, ssa.Value(drainRecv)) && ex.Index >= 2 {
 				drained = ex
 			}
 		}
@@ -746,7 +746,7 @@ func runC11(c *Ctx) {
 	}
 	// newConn stores that address as the conn's remote address and getConn passes it
 	okStore := false
-	instrsOf(r.newConn, func(in ssa.Instruction) {
+	instrsOfU(r.newConn, func(in ssa.Instruction) {
 		if st, ok := in.(*ssa.Store); ok && isFieldStore(st, r.CT, r.cRAddr) {
 			if _, isP := st.Val.(*ssa.Parameter); isP {
 				okStore = true
@@ -757,11 +757,11 @@ func runC11(c *Ctx) {
 	if !okStore {
 		o.Fail(r.newConn.Pos(), "the new connection does not record the address it was created for")
 	}
-	instrsOf(G, func(in ssa.Instruction) {
+	instrsOfU(G, func(in ssa.Instruction) {
 		if call, ok := in.(*ssa.Call); ok && call.Call.StaticCallee() == r.newConn {
 			passes := false
 			for _, a := range call.Call.Args {
-				if a == lookupAddr {
+				if sameOrigin(a, lookupAddr) {
 					passes = true
 				}
 			}
@@ -775,13 +775,13 @@ func runC11(c *Ctx) {
 	o = c.Obl("R2", fname(r.dispatch), "the datagram is written into the buffer of the connection returned for its own address; address and payload come from the same read (same batch index)", 3)
 	D := r.dispatch
 	var gcCall *ssa.Call
-	instrsOf(D, func(in ssa.Instruction) {
+	instrsOfU(D, func(in ssa.Instruction) {
 		if call, ok := in.(*ssa.Call); ok && call.Call.StaticCallee() == G {
 			gcCall = call
 		}
 	})
 	nW := 0
-	instrsOf(D, func(in ssa.Instruction) {
+	instrsOfU(D, func(in ssa.Instruction) {
 		if !isCall(in, "(*packetio.Buffer).Write") {
 			return
 		}
@@ -792,13 +792,13 @@ func runC11(c *Ctx) {
 		okConn := ok && fr.SName == r.CT && fr.Field == r.cBuffer
 		if okConn {
 			ex, isEx := fr.Base.(*ssa.Extract)
-			okConn = isEx && ex.Tuple == ssa.Value(gcCall) && ex.Index == 0
+			okConn = isEx && sameOrigin(ex.Tuple, ssa.Value(gcCall)) && ex.Index == 0
 		}
 		if !okConn {
 			o.Fail(in.Pos(), "the datagram is written to a buffer that is not the one of the conn returned by %s for this datagram", fname(G))
 		}
 		if gcCall != nil {
-			if len(D.Params) < 3 || gcCall.Call.Args[1] != ssa.Value(D.Params[1]) || call.Call.Args[1] != ssa.Value(D.Params[2]) {
+			if len(D.Params) < 3 || !sameOrigin(gcCall.Call.Args[1], ssa.Value(D.Params[1])) || !sameOrigin(call.Call.Args[1], ssa.Value(D.Params[2])) {
 				o.Fail(in.Pos(), "address looked up and payload written are not the dispatcher's own (addr, buf) pair")
 			}
 		}
@@ -806,7 +806,7 @@ func runC11(c *Ctx) {
 		if gcCall != nil && !hasFact(in, func(ft fact) bool {
 			return boolFact(ft, func(v ssa.Value) bool {
 				ex, ok := v.(*ssa.Extract)
-				return ok && ex.Tuple == ssa.Value(gcCall) && ex.Index == 1
+				return ok && sameOrigin(ex.Tuple, ssa.Value(gcCall)) && ex.Index == 1
 			}, true)
 		}) {
 			o.Fail(in.Pos(), "the datagram is written although %s did not report a usable conn", fname(G))
@@ -816,7 +816,7 @@ func runC11(c *Ctx) {
 		o.Fail(D.Pos(), "expected exactly one buffer write per dispatched datagram, found %d", nW)
 	}
 	for _, rd := range r.readers {
-		instrsOf(rd, func(in ssa.Instruction) {
+		instrsOfU(rd, func(in ssa.Instruction) {
 			call, ok := in.(*ssa.Call)
 			if !ok || call.Call.StaticCallee() != D {
 				return
@@ -897,7 +897,7 @@ func runC11(c *Ctx) {
 			o.Fail(in.Pos(), "registration is not on the not-found edge of the table lookup: a second connection can be registered for a remote whose connection is still in the table (Close of the old one then removes the new entry)")
 		}
 		// filter: every call of the accept filter must dominate-or-skip: if the filter is called its true edge must hold
-		instrsOf(G, func(fi ssa.Instruction) {
+		instrsOfU(G, func(fi ssa.Instruction) {
 			call, ok := fi.(*ssa.Call)
 			if !ok || call.Call.IsInvoke() || call.Call.StaticCallee() != nil {
 				return
@@ -1053,7 +1053,7 @@ func runC11(c *Ctx) {
 	o = c.Obl("R7", r.LT+"."+r.conns, "routing state lives only in the table: readers keep no per-remote connection cache across datagrams (every datagram is looked up)", 1)
 	for _, rd := range append([]*ssa.Function{D}, r.readers...) {
 		o.Site(rd.Pos(), "%s", fname(rd))
-		instrsOf(rd, func(in ssa.Instruction) {
+		instrsOfU(rd, func(in ssa.Instruction) {
 			// a *Conn value flowing around a loop (phi of *Conn) in a reader, or a buffer write outside the dispatcher
 			if ph, ok := in.(*ssa.Phi); ok && typeName(ph.Type()) == r.CT && rd != D {
 				o.Fail(in.Pos(), "%s carries a connection across loop iterations (a cache that is not invalidated by Close)", fname(rd))
